@@ -405,12 +405,17 @@ def container_attr(it, o, name):
             return o.order
     known = _KNOWN_METHODS.get(type(o).__name__, ())
     if name not in known:
+        # an AttributeError is only REAL when the modelled Python type really lacks the attribute; a method this model does not
+        # cover (or any attribute of a modelled numpy object) is a limit of the analysis, not a behaviour of the code
+        real = {'list': list, 'tuple': tuple, 'dict': dict, 'set': set, 'frozenset': frozenset, 'str': str}.get(type(o).__name__)
+        if real is None or hasattr(real, name):
+            raise Undecidable('attribute %s of a %s is not modelled' % (name, type(o).__name__))
         raise PyRaise('AttributeError', "'%s' object has no attribute %r" % (type(o).__name__, name))
     return BoundBuiltin(o, name)
 
 
 _KNOWN_METHODS = {
-    'list': {'append', 'extend', 'pop', 'reverse', 'insert', 'remove', 'index', 'copy', 'sort', '__iter__',
+    'list': {'append', 'extend', 'pop', 'popleft', 'appendleft', 'reverse', 'insert', 'remove', 'index', 'copy', 'sort', '__iter__',
              '__contains__', 'count', 'clear'},
     'tuple': {'index', 'count'},
     'dict': {'get', 'items', 'keys', 'values', 'copy', 'update', 'pop', 'setdefault'},
@@ -421,7 +426,7 @@ _KNOWN_METHODS = {
             'isalpha', 'isupper', 'islower'},
     'StrT': {'lower', 'upper', 'format', 'join', 'strip'},
     'PolyT': {'deriv', 'integ'},
-    'Arr': {'dot', 'copy', 'item', 'ravel', 'flatten', 'tolist', 'all'},
+    'Arr': {'dot', 'copy', 'item', 'ravel', 'flatten', 'tolist', 'all', 'setflags'},
     'Iter': {'__iter__', '__next__'},
 }
 
@@ -436,6 +441,13 @@ def call_bound(it, recv, name, args, kwargs):
         if name == 'item':
             return recv
     if isinstance(recv, list):
+        if name == 'popleft':          # collections.deque is modelled by a list
+            if not recv:
+                raise PyRaise('IndexError', 'pop from an empty deque')
+            return recv.pop(0)
+        if name == 'appendleft':
+            recv.insert(0, args[0])
+            return None
         if name == 'append':
             recv.append(args[0])
             return None
@@ -590,6 +602,8 @@ def call_bound(it, recv, name, args, kwargs):
             return Arr([x for r in recv.d for x in r]) if recv.ndim == 2 else recv
         if name == 'tolist':
             return [list(r) for r in recv.d] if recv.ndim == 2 else list(recv.d)
+        if name == 'setflags':
+            return None            # write protection is not modelled (a write to a read-only array would raise in the real code)
         if name == 'all':
             flat = [x for r in recv.d for x in r] if recv.ndim == 2 else recv.d
             return all(it.truth(x) for x in flat)
@@ -1057,6 +1071,27 @@ def call_ext(it, dotted, args, kwargs):
         if isinstance(v, (tuple, str, int, Rat)) or v is None:
             return v
         raise Undecidable('copy of %r' % (v,))
+    if mod == 'collections' and short == 'deque':
+        return list(it.iterate(args[0])) if args else []
+    if short == 'isfinite' and mod in ('numpy', 'np', 'math'):
+        from .values import PosInf
+        def fin(x):
+            if isinstance(x, PosInf):
+                return False
+            return True          # symbolic numbers stand for finite floats
+        if isinstance(args[0], Arr):
+            return args[0].map(lambda x: fin(x))
+        return fin(args[0])
+    if mod == 're' and short == 'compile':
+        if not all(isinstance(a, (str, int)) for a in args):
+            raise Undecidable('re.compile of a symbolic pattern')
+        pat_args = list(args)
+        o = Opaque('re.Pattern')
+        o.attrs['pattern'] = args[0]
+        from .values import PyFunc
+        for meth in ('findall', 'split', 'sub'):
+            o.attrs[meth] = PyFunc(lambda it2, a, k, meth=meth: call_ext(it2, 're.' + meth, [pat_args[0]] + list(a), dict(k, **({'flags': pat_args[1]} if len(pat_args) > 1 and meth != 'sub' else {}))), meth)
+        return o
     if mod == 're' and short in ('findall', 'split', 'sub', 'escape'):
         # concrete pattern on a concrete string: the standard library's own answer (the regex engine is trusted, see E6)
         if all(isinstance(a, (str, int)) for a in args) and all(isinstance(v, (str, int)) for v in kwargs.values()):
